@@ -119,6 +119,11 @@ def arg_py(a, ops):
 # -- the hook: re-check constraints in creation order -------------------------
 
 _installed = False
+_NEXT_ID = [0]          # creation number the next constraint will get
+
+
+def peek_id():
+    return _NEXT_ID[0]
 
 
 def install_order_hook():
@@ -126,11 +131,11 @@ def install_order_hook():
     from transforge import type as T
     if _installed and getattr(T.Constraint.__init__, "_verif", False):
         return
-    counter = itertools.count()
     orig = T.Constraint.__init__
 
     def init(self):
-        self._verif_id = next(counter)
+        self._verif_id = _NEXT_ID[0]
+        _NEXT_ID[0] += 1
         orig(self)
     init._verif = True
     T.Constraint.__init__ = init
